@@ -29,6 +29,8 @@ structure Ep where
   /-- `next_tsn` as last chosen in an emitted INIT / INIT-ACK (then advanced by the sender model) -/
   nextTsn  : UInt32 := 0
   remoteTag : UInt32 := 0
+  /-- `verification_tag` (own tag; 0 until an INIT / INIT-ACK was emitted) -/
+  localTag : UInt32 := 0
   peerRwnd : UInt32 := 262144
   /-- the teardown guard has run -/
   cleaned  : Bool := false
@@ -77,29 +79,42 @@ def parseInit (v : Bytes) : Option (UInt32 × UInt32 × UInt32 × Bytes) :=
     some (rd32 g0 g1 g2 g3, rd32 r0 r1 r2 r3, rd32 t0 t1 t2 t3, params)
   | _ => none
 
+/-- `handle_init`. A duplicate of the INIT the association was set up with (same initiate tag,
+own tag already chosen) is ignored once established; during setup it is answered again with the
+same tag / initial TSN (the re-sent INIT-ACK is observed by `noteTx`). -/
 def handleInit (e : Ep) (v : Bytes) : Ep :=
   match parseInit v with
   | none => e
   | some (tag, arwnd, itsn, _) =>
-    { e with rx := { e.rx with cum := itsn - 1 }, remoteTag := tag, peerRwnd := arwnd }
+    let duplicate := e.localTag != 0 && e.remoteTag == tag
+    if duplicate && e.state == .connected then e
+    else { e with rx := { e.rx with cum := itsn - 1 }, remoteTag := tag, peerRwnd := arwnd }
 
+/-- `handle_init_ack`: discarded outside COOKIE-WAIT (T1 armed with INIT) -/
 def handleInitAck (e : Ep) (v : Bytes) : Ep :=
-  let e := { e with t1 := none }
-  match parseInit v with
-  | none => e
-  | some (tag, arwnd, itsn, params) =>
-    let e := { e with rx := { e.rx with cum := itsn - 1 }, remoteTag := tag, peerRwnd := arwnd }
-    match findCookie params.length params none with
-    | some _ => { e with t1 := some ctCookieEcho }
+  if e.t1 != some ctInit then e
+  else
+    let e := { e with t1 := none }
+    match parseInit v with
     | none => e
+    | some (tag, arwnd, itsn, params) =>
+      let e := { e with rx := { e.rx with cum := itsn - 1 }, remoteTag := tag, peerRwnd := arwnd }
+      match findCookie params.length params none with
+      | some _ => { e with t1 := some ctCookieEcho }
+      | none => e
 
+/-- `handle_cookie_echo`: a valid cookie is (re-)acknowledged; only the first one establishes the
+association and opens the channels -/
 def handleCookieEcho (e : Ep) (v : Bytes) : Ep :=
   if e.cookies.contains v then
-    { e with state := .connected, rx := { e.rx with pl := openChannels e.rx.pl } }
+    if e.state == .connected then e
+    else { e with state := .connected, rx := { e.rx with pl := openChannels e.rx.pl } }
   else e
 
+/-- `handle_cookie_ack`: discarded outside COOKIE-ECHOED (T1 armed with COOKIE-ECHO) -/
 def handleCookieAck (e : Ep) : Ep :=
-  { e with t1 := none, state := .connected, rx := { e.rx with pl := openChannels e.rx.pl } }
+  if e.t1 != some ctCookieEcho then e
+  else { e with t1 := none, state := .connected, rx := { e.rx with pl := openChannels e.rx.pl } }
 
 def parsePairs : Bytes → List (UInt16 × UInt16)
   | a :: b :: c :: d :: rest => (rd16 a b, rd16 c d) :: parsePairs rest
@@ -191,14 +206,14 @@ def noteTx (e : Ep) (p : Bytes) : Ep :=
     pk.chunks.foldl (fun e c =>
       if c.ty.toNat == ctInit then
         match parseInit c.value with
-        | some (_, _, itsn, _) => { e with nextTsn := itsn, t1 := some ctInit }
+        | some (tag, _, itsn, _) => { e with nextTsn := itsn, t1 := some ctInit, localTag := tag }
         | none => e
       else if c.ty.toNat == ctInitAck then
         match parseInit c.value with
-        | some (_, _, itsn, params) =>
+        | some (tag, _, itsn, params) =>
           match findCookie params.length params none with
-          | some ck => { e with nextTsn := itsn, cookies := ck :: e.cookies }
-          | none => { e with nextTsn := itsn }
+          | some ck => { e with nextTsn := itsn, localTag := tag, cookies := ck :: e.cookies }
+          | none => { e with nextTsn := itsn, localTag := tag }
         | none => e
       else e) e
 
